@@ -10,8 +10,7 @@ PID = "C01"
 def run(tier, seed):
     v = lib.Verdict(PID, tier, seed, "exploration")
     thorough = tier == "thorough"
-    sc = E.self_check(PID, "D2" if thorough else "D1")
-    vp, recs, unenc = E.gen_vectors(PID, "D2", alts=False, heavy=thorough)
+    sc, vp, recs, unenc = E.check_and_gen(PID, "D2" if thorough else "D1", "D2", False, thorough)
     obs = E.run_obs(PID, vp, {"borrowed": False, "seed": seed})
     by_id = {r["id"]: r for r in recs + unenc}
     # B1': the library's bytes, parsed by the TLA+ parser
